@@ -82,6 +82,14 @@ SourceOK(U, B, got, src) ==
     ELSE IF got \in B THEN src = 2
     ELSE TRUE
 
+(* Clause 1 for ANY name the loader is asked for (type templates, helper templates, plain-text / asset     *)
+(* includes, with or without the template suffix, at the top level or in a sub-directory): inU / inB = a  *)
+(* file of that name exists in a user directory / in the built-in package, seeU / seeB = the loader can   *)
+(* see that set.  The text must come from the user's file if there is one, else from the built-in file,   *)
+(* else the name is not resolvable (0).                                                                   *)
+NameSrc(inU, inB, seeU, seeB) == IF inU /\ seeU THEN 1 ELSE IF inB /\ seeB THEN 2 ELSE 0
+NameOK(inU, inB, seeU, seeB, src) == src = NameSrc(inU, inB, seeU, seeB)
+
 (* lookup.history : the answer does not depend on earlier lookups: it equals the answer of a loader that   *)
 (* has never been asked anything (cold).  lookup.order : nor on how the template directories were          *)
 (* populated/enumerated: it equals the answer for the canonical realization of the same configuration.     *)
